@@ -536,6 +536,16 @@ impl Association {
         // master timeout and here we go, we're now in the same situation as a video call with a 3 seconds
         // lag, each waiting for the other to talk, but end up talking at the same time.
         if self.is_integrity_complete() || response.raw_objects.is_empty() {
+            // a fragment whose objects cannot be parsed cannot be delivered: it must not be
+            // confirmed either, or the outstation would discard the events it carries
+            let objects = match response.objects {
+                Ok(objects) => objects,
+                Err(err) => {
+                    tracing::warn!("ignoring unsolicited response with malformed objects: {err}");
+                    return false;
+                }
+            };
+
             // Update last fragment received
             let new_frag = LastUnsolFragment::new(response);
             let last_frag = self.last_unsol_frag.replace(new_frag);
@@ -547,15 +557,13 @@ impl Association {
                 return true; // still want to send confirmation if requested
             }
 
-            if let Ok(objects) = response.objects {
-                extract_measurements(
-                    ReadType::Unsolicited,
-                    response.header,
-                    objects,
-                    self.read_handler.as_mut(),
-                )
-                .await;
-            }
+            extract_measurements(
+                ReadType::Unsolicited,
+                response.header,
+                objects,
+                self.read_handler.as_mut(),
+            )
+            .await;
 
             self.notify_unsolicited_response(false, new_frag.header.control.seq);
 
